@@ -185,6 +185,30 @@ CLAIMED = {
                 "serialised by the driver (true concurrency is C13); tables are record fields of the engine (isolation by construction, checked through the member/static scan). No axioms.",
         "technique": "Coq noninterference proof parametrised by a source-extracted key policy + extracted-model differential on a deterministic multi-thread driver",
     },
+    "C08": {
+        "category": "proof",
+        "text": "Coq theorems (Properties_C08.v): C08_const_discipline — every effect program (hence every node of every tree, every depth, every call history) leaves all frozen objects of the "
+                "heap bit-identical (M3: induction over programs, `keeps`/`cinv`); C08_constant_never_changes — the object a Constant node hands out is the same object with the same value "
+                "at every later evaluation, whatever ran in between; C08_fresh_constant_is_frozen; C08_optimizer_keeps_constants_const — every one of the nine optimizer passes and the "
+                "bottom-up driver maps trees whose Constant nodes all hold const values to such trees (incl. folded &&/||, folded conversions, For_Loop/If/Block rewrites). Tie: every "
+                "generated program is evaluated k times on one engine; outputs must repeat, the syntax tree dumped after evaluation must equal the tree dumped before (values, types, const "
+                "flags of every Constant), the optimised tree must satisfy the theorem's premise (all Constant values const), and model and implementation must agree on every observation.",
+        "design_ref": "DESIGN.md §6 C08",
+        "note": "Modelled, not verified: Boxed_Value const flag enforcement lives in boxed_cast/assignable checks (ported by hand into the heap primitives PAssign/PWrite/PAlias and validated by the "
+                "correspondence); C++ functions registered by an embedder that const_cast are outside the model. No axioms.",
+        "technique": "Coq invariant proof by induction over effect programs + optimizer pass lemmas + tree-before/after dump and repeated-evaluation differential",
+    },
+    "C18": {
+        "category": "proof",
+        "text": "C18_total/C18_total_no_stuck/C18_depth_bound: for every byte string from_json returns a value or one of its three runtime_errors; the port never runs out of fuel, never wraps a "
+                "size_t, every read is at()/substr() with OutOfRange explicit, nesting <= 512. C18_escape_roundtrip (all byte strings), C18_int_roundtrip (all int64, INT64_MIN via explicit wrap). "
+                "C18_roundtrip: from_json(to_json(v)) = v for all trees of int64/bool/string/null/vector/string-keyed map (maps as std::map order, ints numerically, height <= 512 = Depth_Guard). "
+                "C18_idempotent for texts without floating-point numbers. PARTIAL: doubles (value and %f text) are outside the model; the 1e-6 tolerance clause is only tested.",
+        "design_ref": "DESIGN.md §6 C18",
+        "note": "tie = correspondence every run: h_json (ASan+UBSan, signed-overflow check off because parse_num<int64_t> relies on wrap-around) vs extracted JsonRun on ~10.5k (quick) / ~590k "
+                "(thorough) texts and trees incl. deep nesting to 1e5/1e6; oracle = extracted JsonSpecRun. Known finding: non-finite doubles (1e999) do not survive to_json. No axioms.",
+        "technique": "Coq 8.16 proof over a hand port (JsonDefs.v) + extracted-model/implementation correspondence + extracted specification oracle",
+    },
 }
 PENDING_REASON = "check not built yet in this round (work in progress; see DESIGN.md §6 for the planned Coq model and tie)"
 ALL = ["C%02d" % i for i in range(1, 21)]
